@@ -47,7 +47,7 @@ def check_typed(fx, rep, rule, impl):
         A.one(rep, rule, impl + "::remap_throwable/remap_frame", [])
         return
     b = fx.bodies[p]
-    sy = S.Sym(fx, opaque=lambda q: q in (rt, rf))
+    sy = S.Sym(fx, opaque=lambda q: q in (rt, rf), inline_mut=True)
     try:
         res = sy.eval_body(b)
     except S.Undecidable as e:
@@ -293,7 +293,7 @@ def check_text_api(fx, rep, rule, impl):
         A.one(rep, rule, "helpers of remap_stacktrace", [])
         return
     opaque = {rt, rf, pt[0], pf[0]} | {v[0] for v in fmts.values()}
-    sy = S.Sym(fx, opaque=lambda q: q in opaque)
+    sy = S.Sym(fx, opaque=lambda q: q in opaque, inline_mut=True)
     try:
         res = sy.eval_body(b)
     except S.Undecidable as e:
@@ -388,7 +388,7 @@ def check_text_api(fx, rep, rule, impl):
         rep.undecidable(rule, "%s/text/%s/first-line/shape" % (rule, impl), loc=F.short_file(b["sp"]),
                         construct="no `if let Some(line) = lines.next()` statement before the loop")
     else:
-        sy2 = S.Sym(fx, opaque=lambda q: q in opaque)
+        sy2 = S.Sym(fx, opaque=lambda q: q in opaque, inline_mut=True)
         fp = sy2.ev(first_stmt, S.St())
         bad, n = fc.compare_paths(fp, ref_line(True), outcome, rw=R.rw_iter)
         report_lines(rep, rule, "%s/text/%s/first-line" % (rule, impl), b, fp, bad,
